@@ -166,6 +166,9 @@ type vnJoin struct {
 type vnSlice struct {
 	V []int8 `@A+`
 }
+type vnSliceBatch struct {
+	V []int8 `@( A+ )`
+}
 type vnUSlice struct {
 	V []uint16 `@A+`
 }
@@ -244,6 +247,33 @@ func VH_C17_Slice() {
 		}
 		pe, ok := err.(Error)
 		vAssert(ok && pe.Position() == toks[first].Pos, "C17: conversion error of a slice element is not a participle.Error located at the captured token")
+		vReach("rejects")
+	}
+}
+
+// one capture delivering several tokens to a numeric slice: each element is
+// converted on its own
+func VH_C17_SliceBatch() {
+	toks, texts := vhNumStream(2+vChoose("n", 2), false)
+	p := vhBuild[vnSliceBatch](vhNoElide, &vhStreamDef{toks: toks}, 1)
+	ast, err := p.ParseString("f", "")
+	allOK := true
+	for _, t := range texts {
+		if _, e := strconv.ParseInt(t, 0, 8); e != nil {
+			allOK = false
+		}
+	}
+	if allOK {
+		vAssert(err == nil && len(ast.V) == len(texts), "C17: every element accepted by strconv but the parse failed")
+		for i, t := range texts {
+			w, _ := strconv.ParseInt(t, 0, 8)
+			vAssert(int64(ast.V[i]) == w, "C17: slice element differs from strconv's result")
+		}
+		vReach("converts")
+	} else {
+		vAssert(err != nil, "C17: an element rejected by strconv but the parse succeeded")
+		pe, ok := err.(Error)
+		vAssert(ok && pe.Position() == toks[0].Pos, "C17: conversion error of a slice element is not a participle.Error located at the first captured token")
 		vReach("rejects")
 	}
 }
